@@ -30,6 +30,7 @@ fn main() {
         Some("run") => cmd_run(&args[2..]),
         Some("replay") => cmd_replay(&args[2..]),
         Some("hashes") => cmd_hashes(&args[2..]),
+        Some("selfreplay") => cmd_selfreplay(&args[2..]),
         Some("list") => {
             for p in props::all() {
                 println!("{} {} {}", p.id, p.engine, p.level);
@@ -470,4 +471,30 @@ fn sanitize(s: &str) -> String {
     s.chars()
         .map(|c| if c.is_ascii_alphanumeric() || c == '-' || c == '_' { c } else { '_' })
         .collect()
+}
+
+/// Debug aid: generate run with the given run seed, then replay its own log; print both hashes.
+pub fn cmd_selfreplay(args: &[String]) -> i32 {
+    let Some(spec) = args.first().and_then(|p| props::find(p)) else { return 2 };
+    let seed: u64 = args.get(1).and_then(|s| s.parse().ok()).unwrap_or(1);
+    let f = props::runner(spec.id, Tier::Quick);
+    let mut ch = Choices::generate(seed);
+    let mut rep = RunReport::new(true);
+    let o1 = run_one(&*f, &mut ch, &mut rep);
+    let log = ch.log.clone();
+    let mut ch2 = Choices::replay(seed, log.clone());
+    let mut rep2 = RunReport::new(true);
+    let o2 = run_one(&*f, &mut ch2, &mut rep2);
+    let d = |o: &Result<Outcome, String>| match o { Ok(Outcome::Violation(v)) => v.class.clone(), Ok(Outcome::Ok) => "ok".into(), Ok(Outcome::Foreign(x)) => format!("foreign {x}"), Err(e) => e.clone() };
+    println!("gen: {:016x} {} choices {}", rep.hash, d(&o1), log.len());
+    println!("rep: {:016x} {} choices {}", rep2.hash, d(&o2), ch2.log.len());
+    let (a, b) = (rep.lines.unwrap_or_default(), rep2.lines.unwrap_or_default());
+    for i in 0..a.len().min(b.len()) {
+        if a[i] != b[i] {
+            println!("first difference at line {i}:\n  gen: {}\n  rep: {}", a[i], b[i]);
+            for j in i.saturating_sub(5)..i { println!("  ctx: {}", a[j]); }
+            break;
+        }
+    }
+    0
 }
